@@ -28,6 +28,9 @@ type ioFile struct {
 	Recs  []*dremel.Tree
 	Part  []int
 	Kind  string // single-page, multi-page, multi-rowgroup
+	// Bytes: the file itself when it was not written by the generated writer
+	// (Kind "foreign": written by the reference writer with its encoding freedoms)
+	Bytes []byte
 }
 
 // ioWorkload returns, per shape and codec, a single-page file, a multi-page
@@ -103,6 +106,9 @@ func alignedFiles(c *Ctx) []*ioFile {
 }
 
 func (f *ioFile) write(c *Ctx) ([]byte, bool) {
+	if f.Bytes != nil {
+		return f.Bytes, true
+	}
 	cs := &RTCase{ID: f.ID, Shape: f.Shape, Recs: f.Recs, Partition: f.Part, Page: f.Page, Codec: f.Codec}
 	return WriteCase(c, cs, false)
 }
@@ -202,8 +208,34 @@ func fragPatterns(c *Ctx, fileID string) []fragPattern {
 	return ps
 }
 
+// foreignFiles: per shape n files written by the reference writer (page checksums,
+// unknown thrift fields, free level segmentation, mixed codecs, opaque bytes before
+// the footer): what another Parquet implementation may hand to the reader.
+func foreignFiles(c *Ctx, n int) []*ioFile {
+	var out []*ioFile
+	for _, sh := range c.SelShapes() {
+		sc := sh.Schema()
+		for k := 0; k < n; k++ {
+			id := fmt.Sprintf("%s/mixed/foreign/%d", sh.Name, k)
+			rng := Rng(c.Seed, "iofile/"+id)
+			recs := GenRecords(sc, []GenKind{GenRandom, GenRuns, GenExtremeS}[k%3], 4+rng.Intn(60), rng, false)
+			part := RandomPartition(len(recs), rng)
+			file, _, err := BuildForeign(sc, recs, part, rng, nil)
+			if err != nil {
+				continue
+			}
+			out = append(out, &ioFile{ID: id, Shape: sh, Codec: 0, Page: 1 << 30, Recs: recs, Part: part, Kind: "foreign", Bytes: file})
+		}
+	}
+	return out
+}
+
 func runC08(c *Ctx) {
-	for _, f := range append(append(ioWorkload(c, false), alignedFiles(c)...), xlFiles(c)...) {
+	nf := 3
+	if c.Thorough {
+		nf = 12
+	}
+	for _, f := range append(append(append(ioWorkload(c, false), alignedFiles(c)...), xlFiles(c)...), foreignFiles(c, nf)...) {
 		if c.Only != "" && !strings.HasPrefix(c.Only, f.ID+"/") {
 			continue
 		}
@@ -219,7 +251,10 @@ func runC08(c *Ctx) {
 		}
 		c.Out.Count("files", 1)
 		for _, p := range fragPatterns(c, f.ID) {
-			if (f.Kind == "aligned" || f.Kind == "xl") && p.Name != "chunk1" && p.Name != "chunk7" && p.Name != "chunk4096" && p.Name != "random0" && p.Name != "every3th-call-short" && p.Name != "rich-source-chunk5" {
+			if f.Kind == "foreign" {
+				c.Out.Count("foreign_file_cases", 1)
+			}
+			if (f.Kind == "aligned" || f.Kind == "xl" || f.Kind == "foreign") && p.Name != "chunk1" && p.Name != "chunk7" && p.Name != "chunk4096" && p.Name != "random0" && p.Name != "every3th-call-short" && p.Name != "rich-source-chunk5" {
 				continue
 			}
 			id := f.ID + "/" + p.Name
@@ -337,10 +372,10 @@ func runC09(c *Ctx) {
 		c.Out.Count("sink_writes_total", int64(n))
 		c.Out.Sample(map[string]interface{}{"workload": f.ID, "sink_writes": n, "records": len(f.Recs), "partition": f.Part, "page": f.Page, "fault_positions": fmt.Sprintf("0..%d x {transient,sticky,partial}", n-1)})
 		for k := 0; k < n; k++ {
-			for mi, mode := range []string{"transient", "sticky", "partial", "transient", "sticky"} {
+			for mi, mode := range []string{"transient", "sticky", "partial", "fullcount", "transient", "sticky"} {
 				// the last two: a destination that also offers Flush/Sync/Close/WriteString/ReadFrom
 				// (all succeeding), as bufio.Writer, os.File or gzip.Writer do
-				rich := mi >= 3
+				rich := mi >= 4
 				id := fmt.Sprintf("%s/k=%d/%s", f.ID, k, mode)
 				if rich {
 					id += "/rich-sink"
@@ -446,7 +481,7 @@ func stack() string {
 // ---------- C10: read faults ----------
 
 func runC10(c *Ctx) {
-	for _, f := range append(ioWorkload(c, true), xlFiles(c)...) {
+	for _, f := range append(append(ioWorkload(c, true), xlFiles(c)...), foreignFiles(c, 1)...) {
 		if c.Only != "" && !strings.HasPrefix(c.Only, f.ID+"/") {
 			continue
 		}
@@ -622,7 +657,7 @@ func cutClass(pf *pqfile.File, file []byte, cut int) string {
 }
 
 func runC11(c *Ctx) {
-	files := ioWorkload(c, true)
+	files := append(ioWorkload(c, true), foreignFiles(c, 2)...)
 	for _, f := range files {
 		if c.Only != "" && !strings.HasPrefix(c.Only, f.ID+"/") {
 			continue
@@ -1109,6 +1144,22 @@ func runC11Embedded(c *Ctx) {
 				}
 			}
 		}
+		// a file of the same struct whose records have the carrier's first row group's structure
+		// (same value counts per column) but EMPTY strings: every one of its chunks is at most as
+		// large as the carrier's, some smaller
+		{
+			var shrunk []*dremel.Tree
+			for _, r := range first {
+				shrunk = append(shrunk, emptyStrings(cloneTree(r)))
+			}
+			fo := &ioFile{ID: sh.Name + "/embedded/shrunk", Shape: sh, Codec: 0, Page: 1000, Recs: shrunk, Part: []int{len(shrunk)}}
+			if fb, ok := fo.write(c); ok {
+				if po, err := pqfile.Parse(fb); err == nil {
+					tails["tail-of-a-file-with-equal-counts-and-smaller-chunks"] = "\x00REPLACE\x00" + string(fb[po.FooterOff:])
+					tails["whole-file-with-equal-counts-and-smaller-chunks"] = "\x00REPLACE\x00" + string(fb)
+				}
+			}
+		}
 		// the tail and the whole body of a file of ANOTHER struct (no column in common with this
 		// one's): a prefix ending there carries a footer in which the reading struct finds none of
 		// its columns
@@ -1178,6 +1229,23 @@ func runC11Embedded(c *Ctx) {
 			}
 		}
 	}
+}
+
+// emptyStrings replaces every string value of the record by "".
+func emptyStrings(t *dremel.Tree) *dremel.Tree {
+	if t == nil {
+		return nil
+	}
+	if t.IsLeaf {
+		t.V.S = ""
+	}
+	for _, k := range t.Kids {
+		emptyStrings(k)
+	}
+	for _, k := range t.List {
+		emptyStrings(k)
+	}
+	return t
 }
 
 func cloneTree(t *dremel.Tree) *dremel.Tree {
